@@ -105,6 +105,16 @@ func genC08(dir, tier string, seed int64) {
 	_ = f32t
 	perms := map[int][][]int64{1: {{0}}, 2: {{0, 1}, {1, 0}}, 3: {{0, 1, 2}, {0, 2, 1}, {1, 0, 2}, {1, 2, 0}, {2, 0, 1}, {2, 1, 0}}}
 	shapes := append(shapesUpToRank(1, maxRank, []int{1, 2, 3}), [][]int{{5}, {9}, {17}, {2, 9}, {9, 2}, {2, 5, 3}}...)
+	// matrices with more than 16 rows or columns (not multiples of 16): tiled transposes have a remainder
+	for _, s := range [][]int{{17, 2}, {20, 3}, {2, 33}, {33, 18}} {
+		s := s
+		for _, di := range []int{i64idx, f32idx, 6} {
+			dtForce = di
+			emitOp(raw, "Transpose", []attr{aInts("perm", []int64{1, 0})}, func() []tensor.Tensor { return []tensor.Tensor{f32t(s)} })
+			emitOp(raw, "Transpose", nil, func() []tensor.Tensor { return []tensor.Tensor{f32t(s)} })
+			dtForce = -1
+		}
+	}
 	for _, s := range shapes {
 		s := s
 		r := len(s)
